@@ -82,6 +82,17 @@ type Case struct {
 	// SizeHint presets the router's exported SizeHint field before Build (0 = leave the default -1, n>0 = preset n-1):
 	// it is documented as a capacity hint, so it must not change any answer.
 	SizeHint int `json:"size_hint,omitempty"`
+	// NilPat-1 is the index of a pattern that is registered with the untyped nil as its value (0: none): a record's
+	// value is the caller's business, a match on it reports (nil, params, true).
+	NilPat int `json:"nil_pat,omitempty"`
+}
+
+// valueOf is the value pattern i is registered with.
+func valueOf(i, nilPat int) interface{} {
+	if i == nilPat-1 {
+		return nil
+	}
+	return i
 }
 
 // match is the naive matcher: does path instantiate p, and with which texts (empty texts allowed)?
@@ -175,27 +186,31 @@ func (a answer) String() string {
 	return fmt.Sprintf("pattern #%d [%s]", a.Data, strings.Join(ps, " "))
 }
 
-func lookup(r *denco.Router, path string) (a answer, v *kit.Violation) {
+func lookup(r *denco.Router, path string, nilPat int) (a answer, v *kit.Violation) {
 	v = kit.Guard("Router.Lookup", func() {
 		data, params, found := r.Lookup(path)
 		a.Found = found
 		a.Params = params
 		if found {
-			a.Data = data.(int)
+			if data == nil && nilPat > 0 {
+				a.Data = nilPat - 1
+			} else {
+				a.Data = data.(int)
+			}
 		}
 	})
 	return a, v
 }
 
-func build(pats []Pat, order []int, sizeHint int) (*denco.Router, error, *kit.Violation) {
+func build(pats []Pat, order []int, sizeHint, nilPat int) (*denco.Router, error, *kit.Violation) {
 	recs := make([]denco.Record, 0, len(pats))
 	if order == nil {
 		for i, p := range pats {
-			recs = append(recs, denco.NewRecord(p.Key(), i))
+			recs = append(recs, denco.NewRecord(p.Key(), valueOf(i, nilPat)))
 		}
 	} else {
 		for _, i := range order {
-			recs = append(recs, denco.NewRecord(pats[i].Key(), i))
+			recs = append(recs, denco.NewRecord(pats[i].Key(), valueOf(i, nilPat)))
 		}
 	}
 	before := append([]denco.Record(nil), recs...)
@@ -218,10 +233,10 @@ func build(pats []Pat, order []int, sizeHint int) (*denco.Router, error, *kit.Vi
 }
 
 // rebuild builds a second router from the very slice a first Build has already seen.
-func rebuild(pats []Pat) (*denco.Router, error, *kit.Violation) {
+func rebuild(pats []Pat, nilPat int) (*denco.Router, error, *kit.Violation) {
 	recs := make([]denco.Record, 0, len(pats))
 	for i, p := range pats {
-		recs = append(recs, denco.NewRecord(p.Key(), i))
+		recs = append(recs, denco.NewRecord(p.Key(), valueOf(i, nilPat)))
 	}
 	var r2 *denco.Router
 	var err error
@@ -248,7 +263,7 @@ func keys(pats []Pat) []string {
 
 // Check compares the router with the naive matcher on every path of the case.
 func Check(c Case) *kit.Violation {
-	r, err, v := build(c.Pats, nil, c.SizeHint)
+	r, err, v := build(c.Pats, nil, c.SizeHint, c.NilPat)
 	if v != nil {
 		return v
 	}
@@ -267,7 +282,7 @@ func Check(c Case) *kit.Violation {
 		if len(perm) != len(c.Pats) {
 			continue
 		}
-		o, err, v := build(c.Pats, perm, 0)
+		o, err, v := build(c.Pats, perm, 0, c.NilPat)
 		if v != nil {
 			return v
 		}
@@ -279,7 +294,7 @@ func Check(c Case) *kit.Violation {
 		}
 		others = append(others, other{o, fmt.Sprintf("insertion order %v", perm)})
 	}
-	if rb, err, v := rebuild(c.Pats); v != nil {
+	if rb, err, v := rebuild(c.Pats, c.NilPat); v != nil {
 		return v
 	} else if err == nil && rb != nil {
 		others = append(others, other{rb, "a second Build from the slice a first Build was given"})
@@ -312,7 +327,7 @@ func Check(c Case) *kit.Violation {
 	var kept []keptAnswer
 	for _, bp := range c.Paths {
 		path := string(bp)
-		got, v := lookup(r, path)
+		got, v := lookup(r, path, c.NilPat)
 		if v != nil {
 			return kit.Failf("pats=%q path=%q: %s", keys(c.Pats), path, v.Msg)
 		}
@@ -323,7 +338,7 @@ func Check(c Case) *kit.Violation {
 			return v
 		}
 		for _, o := range others {
-			og, v := lookup(o.r, path)
+			og, v := lookup(o.r, path, c.NilPat)
 			if v != nil {
 				return kit.Failf("pats=%q %s path=%q: %s", keys(c.Pats), o.label, path, v.Msg)
 			}
@@ -583,6 +598,15 @@ func genPerms(t *rapid.T, n, k int) [][]int {
 // GenSmall draws a small pattern set over a tiny alphabet (many collisions) and a few lookup paths.
 func GenSmall(t *rapid.T) Case {
 	pats := genSet(t, rapid.IntRange(1, 12).Draw(t, "npat"), nil, 4)
+	if rapid.IntRange(0, 5).Draw(t, "root-pattern") == 0 {
+		root, dup := Pat{{K: "l", Lit: ""}}, false // the pattern "/"
+		for _, p := range pats {
+			dup = dup || p.norm() == root.norm()
+		}
+		if !dup {
+			pats = append(pats, root)
+		}
+	}
 	c := Case{Pats: pats}
 	np := rapid.IntRange(1, 4).Draw(t, "npaths")
 	for i := 0; i < np; i++ {
@@ -590,6 +614,14 @@ func GenSmall(t *rapid.T) Case {
 	}
 	c.Perms = genPerms(t, len(pats), 3)
 	c.SizeHint = rapid.SampledFrom([]int{0, 0, 0, 1, 2, 4, 9}).Draw(t, "sizehint")
+	if rapid.IntRange(0, 3).Draw(t, "nil-value") == 0 {
+		c.NilPat = 1 + rapid.IntRange(0, len(pats)-1).Draw(t, "nil-pattern")
+		// aim one lookup at that very pattern
+		c.Paths = append(c.Paths, kit.BStr(genPath(t, pats[c.NilPat-1:c.NilPat], nil)))
+	}
+	if rapid.IntRange(0, 5).Draw(t, "empty-path") == 0 {
+		c.Paths = append(c.Paths, kit.BStr("")) // not even a '/': instantiates nothing
+	}
 	return c
 }
 
